@@ -111,3 +111,29 @@ package routing
 //@   loop 0 step [C12.nutrient-channel-store] implies(outflow.at(i)*durationInSeconds + reachVolume.at(i) >= 0.01, post(channelStoredMass) == pre(channelStoredMass) + loadDeposited.at(i))
 //@   loop 0 step [C12.nutrient-flush] implies(outflow.at(i)*durationInSeconds + reachVolume.at(i) < 0.01, post(instreamStoredMass) == 0 && loadDownstream.at(i) == 0)
 //@   loop 0 step [C12.nutrient-loads-nonneg] loadDownstream.at(i) >= 0 && loadToFloodplain.at(i) >= 0 && loadFromStreambank.at(i) >= 0
+
+// ---- C11: lag ----
+// With C = (carried buffer) ++ (inflow): outflow[t] = C[t] for t < n, and the
+// returned buffer holds C[n .. n+L).
+
+//@ func lag(inflow, lagged, timeLag, outflow) returns (r)
+//@   noalias
+//@   safety C11
+//@   requires timeLag >= 0 && len(lagged) == int(timeLag) && inflow.len == outflow.len
+//@   assigns outflow.cells, lagged[*]
+//@   ensures [C11.lag-out] forall(t, 0, inflow.len, outflow.at(t) == ite(t < int(timeLag), old(lagged[t]), inflow.at(t - int(timeLag))))
+//@   ensures [C11.lag-buffer] len(r) == int(timeLag) && forall(j, 0, int(timeLag), r[j] == ite(inflow.len + j < int(timeLag), old(lagged[inflow.len + j]), inflow.at(inflow.len + j - int(timeLag))))
+//@   ensures [C11.lag-same-buffer] r == lagged
+//@   loop 0 invariant 0 <= i && i <= min(lagSteps, outflow.len) && lagSteps == int(timeLag) && lagSteps > 0
+//@   loop 0 invariant forall(t, 0, i, outflow.at(t) == lagged[t])
+//@   loop 1 invariant lagSteps <= i && (i <= outflow.len || i == lagSteps) && lagSteps == int(timeLag)
+//@   loop 1 invariant forall(t, 0, min(lagSteps, outflow.len), outflow.at(t) == lagged[t])
+//@   loop 1 invariant forall(t, lagSteps, i, outflow.at(t) == inflow.at(t - lagSteps))
+//@   loop 2 invariant inflow.len <= i && i <= lagSteps
+//@   loop 2 invariant forall(j, 0, i - inflow.len, lagged[j] == old(lagged[j + inflow.len]))
+//@   loop 2 invariant forall(j, i - inflow.len, lagSteps, lagged[j] == old(lagged[j]))
+//@   loop 3 invariant 0 <= i && i <= inflow.len
+//@   loop 3 invariant forall(j, 0, lagSteps - inflow.len, lagged[j] == old(lagged[j + inflow.len]))
+//@   loop 3 invariant forall(j, 0, i, lagged[lagSteps - inflow.len + j] == inflow.at(j))
+//@   loop 4 invariant 0 <= i && i <= lagSteps
+//@   loop 4 invariant forall(j, 0, i, lagged[j] == inflow.at(inflow.len - lagSteps + j))
